@@ -5,7 +5,8 @@
 //   * Ready()==true implies the value can be read (it has been set, and Touch() returns it);
 //   * every Get/Touch/callback sees the value that was set: never an unset, moved-from or destroyed one.
 //
-// A plan is "<fulfil>/<ops>.<ops>...": fulfil in {set, err, drop, split, nofut}, one op string per observer:
+// A plan is "<fulfil>/<ops>.<ops>...": fulfil in {set, err, drop, split, nofut, thrd, thrs}, one op string per observer
+// (thrd / thrs: the first Set(const Val&) throws from Val's copy constructor; then the promise is dropped / Set again):
 //   r Ready            p if (Ready()) Touch() const&   T if (Ready()) Touch()&&       w Wait
 //   g Get() const&     m Get() &&                       i ThenInline    e Then(inline-like executor)
 //   d Then(deferred executor, drained by the observer after it destroyed its copy)
@@ -34,12 +35,14 @@ namespace {
 struct Under {
   const char* lo = nullptr;
   const char* hi = nullptr;
+  bool throw_next_copy = false;  // the next copy construction of a payload throws (once)
   bool set_started = false;  // the fulfiller entered Set (cooperative fibers: the Store is done before anyone else runs)
   long expected = 0;
   int next_ptr = 0;
   std::unordered_map<std::uint64_t, int> ptr_ids;
 };
 Under U;
+struct CopyFailed {};
 
 bool InSlot(const void* p) {
   auto* c = static_cast<const char*>(p);
@@ -67,7 +70,11 @@ struct Tracked {
     }
     return 99;  // never constructed / torn
   }
-  Tracked(const Tracked& o) noexcept : a{o.a}, chk{o.chk}, st{o.st} {
+  Tracked(const Tracked& o) : a{o.a}, chk{o.chk}, st{o.st} {  // may throw once when asked to (Under::throw_next_copy)
+    if (U.throw_next_copy) {
+      U.throw_next_copy = false;
+      throw CopyFailed{};
+    }
     if (InSlot(&o)) {
       long c = o.CodeOf();
       vrt::Event("scopy " + std::to_string(c));
@@ -603,7 +610,8 @@ Plan Parse(const std::string& name) {
 void RunPlan(const Plan& plan) {
   U = Under{};
   const std::string& fk = plan.fulfil;
-  U.expected = (fk == "err") ? 25 : (fk == "drop") ? 29 : 12;  // small numbers: the model replays them in unary
+  // small numbers: the model replays them in unary
+  U.expected = (fk == "err") ? 25 : (fk == "drop" || fk == "thrd") ? 29 : 12;
   std::optional<SF> f0;
   std::optional<SP> p;
   std::optional<yaclib::Promise<Val, Err>> up;
@@ -657,9 +665,33 @@ void RunPlan(const Plan& plan) {
   yaclib_std::thread tf([&] {
     vrt::NameThread("F");
     Outer::SetAll(outer.early);
+    bool lost = false;
+    if (fk == "thrd" || fk == "thrs") {
+      // the first Set(const Val&) throws out of Val's copy constructor while the Result is being constructed in the
+      // state: nothing was stored, nothing was published (for the model: no event at all), the promise must still be
+      // able to deliver a result - by a second Set (thrs) or by its destructor's StopTag (thrd)
+      const Val v{2};
+      U.throw_next_copy = true;
+      vrt::Event("setthrow");
+      try {
+        std::move(*p).Set(v);
+        vrt::Fail("harness: the copy constructor was asked to throw and did not");
+      } catch (const CopyFailed&) {
+      }
+      U.throw_next_copy = false;
+      if (!p->Valid()) {
+        lost = true;
+        vrt::Fail("Set threw while constructing the value and left the promise invalid: the shared state can never be "
+                  "fulfilled, every observer attached through a SharedFuture copy fires zero times");
+      }
+    }
     U.set_started = true;
     vrt::Event("set " + std::to_string(U.expected));
-    if (fk == "set" || fk == "nofut") {
+    if (lost) {
+      p.reset();
+    } else if (fk == "thrd") {
+      p.reset();  // ~SharedPromise: Set(StopTag)
+    } else if (fk == "set" || fk == "nofut" || fk == "thrs") {
       std::move(*p).Set(Val{2});
     } else if (fk == "err") {
       std::move(*p).Set(Err{5});
